@@ -357,6 +357,8 @@ func genSrcFile(t *rapid.T, name string, minAnnotated int) *SrcFile {
 		"/* 版权 © */\npackage pb // 包 @tag valid:\"pkg\"\n\nimport \"sync\"\n\n",
 		"\ufeffpackage pb\n\n", // byte order mark (go/parser accepts it): every offset is shifted by 3 bytes
 		"//go:build !ignore\n\n// Package pb 说明。\npackage pb\n\n",
+		"package pb\n\nimport ()\n\nconst ()\n\nvar ()\n\ntype ()\n\n", // empty declaration groups (templates ranging over empty lists emit them)
+		"package pb\n\nimport (\n)\n\nvar (\n\t// nothing yet\n)\n\n",
 	}).Draw(t, "header")
 	if rapid.IntRange(0, 39).Draw(t, "longLine") == 0 {
 		// one very long line (beyond 64 KiB, the default buffer of line scanners) ahead of everything else
